@@ -36,7 +36,8 @@ MENU["settimeout"] = ["oserror"]  # also a failure while the connection is being
 
 def alphabet(tier):
     # calls refused for an illegal key never reach the network, but they do pass through the pool
-    refused = [ops.Op("get", "bad key"), ops.Op("set_many", {"a": b"1", "bad key": b"2"}, noreply=False)]
+    refused = [ops.Op("get", "bad key"), ops.Op("set_many", {"a": b"1", "bad key": b"2"}, noreply=False),
+               ops.Op("close")]  # PooledClient.close(): every pooled connection is closed, whatever happens on the way
     alpha = ops.alphabet(noreplies=(None, False))
     if tier == "quick":
         want = {"get", "set", "get_many", "quit", "set_many", "delete_many", "incr", "gets", "stats", "version"}
@@ -210,7 +211,7 @@ class World:
         # reference pool: scan the idle list from the oldest; close every expired entry met on the way; the
         # first entry that is not expired is handed out; only if there is none a new connection is opened
         first_ok = None
-        for j, (c, (open_, true_age, impl_age)) in enumerate(before):
+        for j, (c, (open_, true_age, impl_age)) in enumerate(before if op.name != "close" else ()):
             if idle and true_age > idle:
                 if c in pool._free_objs or c in pool._used_objs:
                     bad.append(("expired-connection-reused",
@@ -226,7 +227,7 @@ class World:
                         f"{op.label} opened a new connection although an idle one aged "
                         f"{first_ok[2]}s (timeout {idle}) was available"))
         # a connection on which the call succeeded goes back to the pool open, however long the call took
-        if not inner_raised and op.name != "quit" and not [h for h in net.hard if h[0] == call]:
+        if not inner_raised and op.name not in ("quit", "close") and not [h for h in net.hard if h[0] == call]:
             for sid in used_socks:
                 sk = net.socks[sid]
                 idle_in_pool = any(c.sock is sk for c in pool._free_objs)
@@ -237,13 +238,19 @@ class World:
         # a call only disposes of the connection(s) it checked out (and of expired ones met on the way): a
         # healthy idle sibling that it did not use stays idle and open, whatever the call's own fate
         for c, (open_, true_age, impl_age) in before:
-            if any(c is x for x in self.checked) or not open_ or (idle and true_age > idle):
+            if op.name == "close" or any(c is x for x in self.checked) or not open_ or (idle and true_age > idle):
                 continue
             if not any(c is x for x in pool._free_objs) or c.sock is None or c.sock.state != "connected":
                 bad.append(("idle-sibling-disposed",
                             f"{op.label} ({'failed' if inner_raised else 'ok'}) did not use the connection that was idle for "
                             f"{true_age}s (timeout {idle}), yet it is "
                             + ("no longer in the pool" if not any(c is x for x in pool._free_objs) else "closed") + " afterwards"))
+        # close() leaves no connection open and none in the pool, even if something fails while it runs
+        if op.name == "close":
+            still = [s_.sid for s_ in net.socks if s_.state != "closed" and not s_.shadow]
+            if still or pool._free_objs or pool._used_objs:
+                bad.append(("open-after-close", f"after close() ({'raised' if res[0] == 'exc' else 'returned'}) sockets {still} are "
+                            f"still open and the pool holds {len(pool._free_objs)} idle / {len(pool._used_objs)} used connection(s)"))
         # quit is a deliberate discard
         if op.name == "quit":
             for c in self.checked:
